@@ -16,7 +16,10 @@ def check(pid, engine, technique, text, note, ref=None, category="model_checking
                        category=category)
 
 
+ADDED = {}       # id -> coverage added after the first version of a check
 exec(open(os.path.join(HERE, "tools", "manifest_table.py")).read())
+for _pid, _txt in ADDED.items():
+    CHECKS[_pid]["text"] += " Added later: " + _txt
 
 ENGINES = [
     dict(name="explore", path="mc/explore.py",
